@@ -52,7 +52,7 @@ func c20Query(w *World, size int64, bm string) (string, *c20Page) {
 	return fmt.Sprintf("QOk %s %s", coqList(ids), coqStr(p.Bookmark)), &p
 }
 
-func c20Case(c *Ctx, ids []string, junk []string) error {
+func c20Case(c *Ctx, ids []string, junk []string, walkSizes []int64) error {
 	rng := c.Rng
 	w := NewWorld()
 	if _, err := w.AddToken("TT", ChanOpts{}); err != nil {
@@ -150,7 +150,7 @@ func c20Case(c *Ctx, ids []string, junk []string) error {
 	var qs, qo []string
 	bookmarks := []string{"", c20Prefix, "/transfer/to/t0", "zzz", "/transfer/from", "/transfer/fro", c20Prefix + "a0z", c20Prefix + "\xf4\x8f\xbf\xbf", "/", "/transfer/audit"}
 	for _, k := range keys {
-		if strings.HasPrefix(k, "/transfer/") {
+		if strings.HasPrefix(k, "/transfer/") && (walkSizes == nil || rng.Intn(10) == 0) {
 			bookmarks = append(bookmarks, k)
 		}
 	}
@@ -173,11 +173,17 @@ func c20Case(c *Ctx, ids []string, junk []string) error {
 	}
 	// walks
 	var ws, wo []string
-	for size := int64(1); size <= int64(inRange)+1; size++ {
+	sizes := walkSizes
+	if sizes == nil {
+		for size := int64(1); size <= int64(inRange)+1; size++ {
+			sizes = append(sizes, size)
+		}
+	}
+	for _, size := range sizes {
 		var got []string
 		bm := ""
 		ok := true
-		for guard := 0; guard < 1000; guard++ {
+		for guard := 0; guard < 2000; guard++ {
 			o, p := c20Query(w, size, bm)
 			if p == nil {
 				ok = false
@@ -220,9 +226,9 @@ func errClassShort(msg string) string {
 
 func genC20(c *Ctx) error {
 	c.ShardSize = 6
-	c.Notes["rule"] = "each case: fresh chaincode; 0-9 origin-side transfers created through signed batched channelTransferByCustomer with ids from a pool (ids that are prefixes of each other, multi-byte ids, duplicate ids, and ids on which path.Join is not concatenation: '.', '..', 'a/', '../to/x', 'a//b'), then committed / cancelled / committed+deleted at random; two destination-side records and unrelated keys just outside the range; all page sizes 1..n+1 walked from the empty bookmark; single queries for sizes {1,2,n,n+1,0,-1,-100} x bookmarks {empty, every transfer key, keys outside the range, a non-existing key inside the range, the end key}. Non-trivial: >= 2 records in range."
+	c.Notes["rule"] = "each case: fresh chaincode; 0-9 origin-side transfers created through signed batched channelTransferByCustomer with ids from a pool (ids that are prefixes of each other, ids that differ only by trailing or leading white space, ids at and beyond '~', multi-byte ids, duplicate ids, and ids on which path.Join is not concatenation: '.', '..', 'a/', '../to/x', 'a//b'), then committed / cancelled / committed+deleted at random; two destination-side records and unrelated keys just outside the range; all page sizes 1..n+1 walked from the empty bookmark; single queries for sizes {1,2,n,n+1,0,-1,-100} x bookmarks {empty, every transfer key, keys outside the range, a non-existing key inside the range, the end key}. Plus long listings: 130-260 records created in a permuted order, walked with page sizes 1, 7, 64, 99, 100, 101, 115, n-1, n, n+3, 1000. Non-trivial: >= 2 records in range."
 	rng := c.Rng
-	clean := []string{"a", "ab", "b", "a0", "zz", "é", "0", "A", "abc", "b-1", "~", "a b"}
+	clean := []string{"a", "ab", "b", "a0", "zz", "é", "0", "A", "abc", "b-1", "~", "a b", "a ", "a\t", "ab ", " a", "~z", "\u007f", "振込"}
 	unclean := []string{".", "..", "a/", "../to/x", "a//b", "x/y"}
 	junkPool := []string{"/transfer/fro", "/transfer/from", "/transfer/from0", "/transfer/frommage", "/transfer/g", "/transfer/to0", "/u"}
 	n := c.N(60, 1500)
@@ -243,9 +249,23 @@ func genC20(c *Ctx) error {
 				junk = append(junk, j)
 			}
 		}
-		if err := c20Case(c, ids, junk); err != nil {
+		if err := c20Case(c, ids, junk, nil); err != nil {
 			return err
 		}
+	}
+	// long listings: more records than any page-size limit a layer in between might impose (130-260 records, created in
+	// a permuted order), walked with page sizes below, at and above 100 and above the number of records
+	for i := c.N(1, 6); i > 0; i-- {
+		nrec := 130 + rng.Intn(131)
+		var ids []string
+		for _, j := range rng.Perm(nrec) {
+			ids = append(ids, fmt.Sprintf("r%03d", j))
+		}
+		ids = append(ids, "a ", "~z")
+		if err := c20Case(c, ids, junkPool[:3], []int64{1, 7, 64, 99, 100, 101, 115, int64(nrec) - 1, int64(nrec), int64(nrec) + 3, 1000}); err != nil {
+			return err
+		}
+		c.Count("long_listing")
 	}
 	return nil
 }
